@@ -33,6 +33,8 @@ pub fn install_panic_hook() {
             s.to_string()
         } else if let Some(s) = info.payload().downcast_ref::<String>() {
             s.clone()
+        } else if let Some(t) = info.payload().downcast_ref::<TypedPanic>() {
+            t.0.clone()
         } else {
             "<non-string panic>".to_string()
         };
@@ -1185,7 +1187,8 @@ impl Actor for SA {
                     actor: st.idx,
                     out: Out::Panic,
                 });
-                panic!("scripted start panic actor {}", st.idx)
+                // payload kinds differ from hook to hook: a literal (&'static str) here, a typed value in on_run, Strings elsewhere
+                panic!("scripted start panic")
             }
             _ => {
                 st.sh.log.push(K::StartExit {
@@ -1266,7 +1269,7 @@ impl SA {
                     match st.out {
                         Out::True => Ok(true),
                         Out::False | Out::Ok => Ok(false),
-                        Out::Panic => panic!("scripted run panic actor {}", idx),
+                        Out::Panic => std::panic::panic_any(TypedPanic(format!("scripted run panic actor {}", idx))),
                         Out::Err => Err(format!("run-err-{}", idx)),
                     }
                 }
